@@ -154,6 +154,13 @@ class C06(common.Prop):
                     exp = molgen.expected_graph(case['mol'])
                     res['layered_ok'] = bool(molgen.same_molecule(hl, exp))
                     res['flat_ok'] = bool(molgen.same_molecule(hf, exp))
+                    # names too: the last step of both strings resolves the same coarse graph (the parts),
+                    # so element, atom name and fragment name must agree through one isomorphism
+                    if res['layered_ok'] and res['flat_ok']:
+                        nm = lambda x, y: (x.get('element'), x.get('atomname'), x.get('fragname')) == \
+                            (y.get('element'), y.get('atomname'), y.get('fragname'))
+                        em = lambda x, y: float(x.get('order', 1)) == float(y.get('order', 1))
+                        res['layered_ok'] = bool(nx.is_isomorphic(mol, fmol, node_match=nm, edge_match=em))
                 else:
                     res['layered_ok'] = bool(molgen.same_molecule(hl, hf))
                     res['flat_ok'] = True
